@@ -536,3 +536,75 @@ def same_cells(t, columns):
     if len(t._underlying) != len(columns):
         return False
     return all(col_view_equal(c, v) and c is not v for c, v in zip(t._underlying, columns))
+
+
+# ------------------------------------------------------------------ container inspection (loop invariants only)
+def _symbolic_only():
+    raise NotImplementedError('container-inspection functions are evaluated symbolically by pyvc only')
+
+
+def mk_key(*components):
+    """dict key of a tuple of key components"""
+    _symbolic_only()
+
+
+def blen(d, k):
+    """length of the bucket stored under key k (0: absent)"""
+    _symbolic_only()
+
+
+def bat(d, k, p):
+    """p-th row index of the bucket under key k"""
+    _symbolic_only()
+
+
+def dcount(d):
+    """number of distinct keys"""
+    _symbolic_only()
+
+
+def dord(d, g):
+    """the g-th key in insertion order"""
+    _symbolic_only()
+
+
+def smem(s, x):
+    _symbolic_only()
+
+
+def llen(lst):
+    _symbolic_only()
+
+
+def lat(lst, i):
+    _symbolic_only()
+
+
+def sel(a, i):
+    _symbolic_only()
+
+
+def upd(a, i, v):
+    _symbolic_only()
+
+
+def forall(sorts, fn):
+    """forall('ki', lambda k, i: ...): universally quantified over keys (k) / ints (i)"""
+    _symbolic_only()
+
+
+def implies(a, b):
+    return (not a) or b
+
+
+def ghost_zero_int():
+    _symbolic_only()
+
+
+def ghost_zero_key():
+    _symbolic_only()
+
+
+def at(seq, i):
+    """seq[i] as a total function of i (loop invariants quantify over all i; range guards are explicit)"""
+    _symbolic_only()
